@@ -488,7 +488,12 @@ func (e *Engine) atLoopHeader(st *State, fr *Frame, li *loopInfo, from *ssa.Basi
 	}
 	var invs []*Clause
 	if c != nil {
-		invs = c.loopClausesFn("loop-invariant", li.ord, lfn)
+		for _, cl := range c.loopClausesFn("loop-invariant", li.ord, lfn) {
+			if cl.NoCase && e.cur.caseName != "" {
+				continue
+			}
+			invs = append(invs, cl)
+		}
 	}
 	back := li.header.Dominates(from) && li.body[from]
 	key := fmt.Sprintf("%p/%d", fr.fn, li.ord)
@@ -855,6 +860,14 @@ func (e *Engine) step(st *State, fr *Frame, in ssa.Instruction) {
 	case *ssa.If:
 		c := e.val(st, fr, x.Cond).t()
 		tb, fb := fr.blk.Succs[0], fr.blk.Succs[1]
+		if !c.IsTrue() && !c.IsFalse() {
+			// equalities "term == constant" on the path (e.g. a precondition fixing a length) decide the test by rewriting
+			if m := st.constEqs(); len(m) > 0 {
+				if r := Subst(c, m); r.IsTrue() || r.IsFalse() {
+					c = r
+				}
+			}
+		}
 		if c.IsTrue() {
 			e.jump(st, fr, tb)
 			return
